@@ -108,7 +108,11 @@ class RefsExtractor(ConversionsVisitor, ObjectVisitor, WithConversionsResolver):
 
     def object(self, tp: AnyType, fields: Sequence[ObjectField]):
         if parent := get_discriminated_parent(get_origin_or_type(tp)):
-            self._incr_ref(get_type_name(parent).json_schema, parent)
+            # the schema of a discriminated child always refers to its parent: visit it
+            # (its mapping refers to the other children), twice to ensure ref count > 1
+            for _ in range(2):
+                if parent is not get_origin_or_type(tp):
+                    self.visit(parent)
         for field in fields:
             self.visit_with_conv(field.type, self._field_conversion(field))
 
